@@ -27,7 +27,7 @@ def alphabet(d):
     for n in NUMS:
         ops.append(["limit", n])
         ops.append(["offset", n])
-    ops += [["slice", 3, 7], ["slice", None, 3], ["slice", 7, None], ["slice", 0, 0]]
+    ops += [["slice", 3, 7], ["slice", None, 3], ["slice", 7, None], ["slice", 0, 0], ["slice", 7, 3]]  # q[a:b] = offset a, limit b (b < a is a valid page)
     ops += [["limit", ["lit", 4]], ["offset", ["lit", 5]]]  # the value given as a wrapped constant (a Term) instead of an int
     if d == "mssql":
         ops += [["fetch_next", 3], ["fetch_next", 0], ["top", 7]]
